@@ -14,6 +14,62 @@ from gen_constants import generator
 PROBE = "Zq9Zq9"
 
 
+def probe_entropy(alphabet, size):
+    import os
+    import random
+    import types
+    import django_components.util.nanoid as nanoid
+    called = []
+
+    def label(name, obj):
+        if obj is os.urandom:
+            return "os.urandom"
+        mod = getattr(obj, "__module__", None) or type(getattr(obj, "__self__", None)).__module__
+        return "%s.%s" % (mod, getattr(obj, "__name__", name))
+
+    class ModProxy:
+        def __init__(self, m):
+            object.__setattr__(self, "_m", m)
+
+        def __getattr__(self, a):
+            v = getattr(object.__getattribute__(self, "_m"), a)
+            if callable(v) and not isinstance(v, type):
+                def w(*aa, _v=v, _a=a, **kk):
+                    called.append(label(_a, _v))
+                    return _v(*aa, **kk)
+                return w
+            return v
+    saved = {}
+    pure = {"ceil", "log", "floor", "sqrt"}          # arithmetic helpers, no entropy
+    for name, obj in list(vars(nanoid).items()):
+        if name.startswith("__") or name == "generate":
+            continue
+        if isinstance(obj, types.ModuleType):
+            saved[name] = obj
+            setattr(nanoid, name, ModProxy(obj))
+        elif callable(obj) and not isinstance(obj, type) and name not in pure:
+            saved[name] = obj
+
+            def w(*aa, _v=obj, _n=name, **kk):
+                called.append(label(_n, _v))
+                return _v(*aa, **kk)
+            setattr(nanoid, name, w)
+    state = random.getstate()
+    try:
+        nanoid.generate(alphabet, size)
+    finally:
+        for name, obj in saved.items():
+            setattr(nanoid, name, obj)
+    try:
+        random.seed(1)
+        a = [nanoid.generate(alphabet, size) for _ in range(40)]
+        random.seed(1)
+        b = [nanoid.generate(alphabet, size) for _ in range(40)]
+    finally:
+        random.setstate(state)
+    return sorted(set(called)), a != b and len(set(a + b)) == 80
+
+
 @generator
 def gen_C14():
     import django_components.perfutil.component as P
@@ -40,6 +96,11 @@ def gen_C14():
         raise RuntimeError("C14 generator: gen_id no longer calls generate exactly once")
     d("id_alphabet", seen[0][0])
     out.append("Definition id_size : nat := %d%%nat." % seen[0][1])
+    # entropy source of the id supply: which callables of util/nanoid.py's namespace one generate() call uses, and
+    # whether re-seeding Python's global (seedable) RNG makes the id sequence repeat
+    src, indep = probe_entropy(seen[0][0], seen[0][1])
+    d("id_entropy_source", ",".join(src))
+    out.append("Definition id_supply_independent_of_global_rng : bool := %s." % ("true" if indep else "false"))
     # placeholder text returned for a nested component
     try:
         ph = str(P.component_post_render(renderer=None, render_id=PROBE, component_name="x", parent_id="p",
